@@ -21,7 +21,7 @@ use serde_json::{json, Value};
 pub struct Seed { pub id: String, pub target: &'static str, pub bytes: Vec<u8>, pub spans: Vec<cfkit::parse::Span>, pub grow: &'static str }
 
 /// Grown structures (fault model: GrowSizes): kind -> target parser.
-const GROW: &[(&str, &str)] = &[("anno_array", "class"), ("anno_anno", "class"), ("ifc_args", "class"), ("method_args", "class"), ("labels", "class"),
+const GROW: &[(&str, &str)] = &[("condy_fanout", "class"), ("anno_array", "class"), ("anno_anno", "class"), ("ifc_args", "class"), ("method_args", "class"), ("labels", "class"),
 	("enigma_nest", "enigma"), ("tiny_nest", "tiny"), ("fdesc_dims", "fdesc"), ("mdesc_dims", "mdesc"), ("desc_args", "mdesc")];
 
 const QUICK_SAMPLES: &[&str] = &["minimal_object", "exception_table", "switches", "frames_each_kind", "annotations_all_element_kinds", "type_annotations_code",
@@ -211,6 +211,35 @@ pub fn grow(kind: &str, k: usize) -> Result<Vec<u8>> {
 			let mut attr = vec![];
 			u2(&mut attr, rva); u4(&mut attr, a.len() as u32); attr.extend_from_slice(&a);
 			gclass(pool, "()V", &[0xb1], &[], (0, vec![]), (1, attr))
+		},
+		// k dynamic constants, each naming the one before twice as bootstrap arguments: a file of 13 k + 300 bytes that
+		// denotes a tree of 2^k constants
+		"condy_fanout" => {
+			let mut pool = GPool::new();
+			let bsm_name = pool.utf8("BootstrapMethods");
+			let (c, nt) = (pool.class("B"), pool.nat("b", "()I"));
+			pool.bytes.push(10); pool.bytes.extend_from_slice(&c.to_be_bytes()); pool.bytes.extend_from_slice(&nt.to_be_bytes()); pool.count += 1;
+			let mref = pool.count - 1;
+			pool.bytes.push(15); pool.bytes.push(6); pool.bytes.extend_from_slice(&mref.to_be_bytes()); pool.count += 1;
+			let handle = pool.count - 1;
+			let cnat = pool.nat("c", "I");
+			let mut dynamics = vec![];
+			for i in 0..k.max(1) {
+				pool.bytes.push(17); pool.bytes.extend_from_slice(&(i as u16).to_be_bytes()); pool.bytes.extend_from_slice(&cnat.to_be_bytes()); pool.count += 1;
+				dynamics.push(pool.count - 1);
+			}
+			let mut a = vec![];
+			u2(&mut a, dynamics.len() as u16);
+			for i in 0..dynamics.len() {
+				u2(&mut a, handle);
+				if i == 0 { u2(&mut a, 0); } else { u2(&mut a, 2); u2(&mut a, dynamics[i - 1]); u2(&mut a, dynamics[i - 1]); }
+			}
+			let mut attr = vec![];
+			u2(&mut attr, bsm_name); u4(&mut attr, a.len() as u32); attr.extend_from_slice(&a);
+			let [x, y] = dynamics[dynamics.len() - 1].to_be_bytes();
+			let mut bytes = gclass(pool, "()V", &[0x13, x, y, 0x57, 0xb1], &[], (0, vec![]), (1, attr));
+			bytes[7] = 55;      // dynamic constants need class file version 55
+			bytes
 		},
 		// invokeinterface of a method with k long parameters (2 slots each; the count operand is a byte)
 		"ifc_args" => {
